@@ -162,9 +162,11 @@ func Harness_C14_code() {
 	}
 	e := &Error{Code: c, Message: nondetString("m", 2)}
 	if nondetBool("d") {
-		e.Data = nondetToken("olddata")
+		// existing data, in a buffer with room to spare (as after a json.Marshal)
+		e.Data = append(make(json.RawMessage, 0, 64), nondetToken("olddata")...)
 	}
-	oc, om, od := e.Code, e.Message, e.Data
+	// a private copy of the bytes: the receiver's data must not be rewritten in place either
+	oc, om, od := e.Code, e.Message, append(json.RawMessage(nil), e.Data...)
 	var v any
 	switch nondetChoice("v", 4) {
 	case 0:
@@ -177,7 +179,7 @@ func Harness_C14_code() {
 		v = json.RawMessage(nondetToken("raw")) // may be invalid JSON -> marshal failure
 	}
 	r := e.WithData(v)
-	vassert(e.Code == oc && e.Message == om && tokSame(e.Data, od), "WithData leaves the receiver unchanged")
+	vassert(e.Code == oc && e.Message == om && len(e.Data) == len(od) && (len(od) == 0 || tokSame(e.Data, od)), "WithData leaves the receiver unchanged")
 	vassert(r.Code == oc && r.Message == om, "WithData result keeps code and message")
 	reach("withdata")
 }
